@@ -141,4 +141,64 @@ theorem interp_mono (t t' : Tensor Rat) (cs : List Rat)
       exact add_le_add (mul_le_mul_of_nonneg_left ha h1w) (mul_le_mul_of_nonneg_left hb' hw.1)
 
 #print axioms interp_mono
+
+/-- the same for the continuation values of `solve` (`interpExt`, entries in `Rat ∪ {-inf}`): whenever the interpolated
+continuation value is defined, inside the grid it lies within the range of the finite next-period values -/
+theorem interpExt_bounds (t : Tensor Ext) (cs : List Rat) (L U : Rat)
+    (hlen : cs.length = t.shape.length)
+    (h2 : ∀ n ∈ t.shape, 2 ≤ n)
+    (hin : ∀ p ∈ cs.zip t.shape, 0 ≤ p.1 ∧ p.1 ≤ (p.2 : Rat) - 1)
+    (hb : ∀ idx v, InBounds t.shape idx → t.get idx = .fin v → L ≤ v ∧ v ≤ U)
+    (q : Rat) (hq : interpExt t cs = some q) : L ≤ q ∧ q ≤ U := by
+  induction cs generalizing t q with
+  | nil =>
+    obtain ⟨shape, get⟩ := t
+    cases shape with
+    | nil =>
+      simp only [interpExt] at hq
+      cases hg : get [] with
+      | ninf => rw [hg] at hq; cases hq
+      | fin v =>
+        rw [hg] at hq
+        have hvq : v = q := Option.some.inj hq
+        rw [← hvq]
+        exact hb [] v (by simp [InBounds]) hg
+    | cons n s => simp at hlen
+  | cons c cs ih =>
+    obtain ⟨shape, get⟩ := t
+    cases shape with
+    | nil => simp at hlen
+    | cons n s =>
+      have hn2 : 2 ≤ n := h2 n (by simp)
+      have hc := hin (c, n) (by simp)
+      have hw := weight_mem_unit c n hn2 hc.1 hc.2
+      have hlo := lowerIdx'_le c n hn2
+      simp only [interpExt, List.headD_cons, Option.bind_eq_bind, Option.pure_def] at hq
+      obtain ⟨A, hA, hq⟩ := Option.bind_eq_some_iff.mp hq
+      obtain ⟨B, hB, hq⟩ := Option.bind_eq_some_iff.mp hq
+      cases hq
+      have hslice : ∀ i x, i < n → interpExt (Tensor.slice ⟨n :: s, get⟩ i) cs = some x → L ≤ x ∧ x ≤ U := by
+        intro i x hi hx
+        refine ih (Tensor.slice ⟨n :: s, get⟩ i) ?_ ?_ ?_ ?_ x hx
+        · simpa [Tensor.slice] using hlen
+        · intro k hk; exact h2 k (by simp [Tensor.slice] at hk; simp [hk])
+        · intro p hp
+          apply hin p
+          simp only [Tensor.slice, List.tail_cons] at hp
+          simp [hp]
+        · intro idx v hidx hv
+          simp only [Tensor.slice, List.tail_cons] at hidx hv
+          exact hb (i :: idx) v ⟨hi, hidx⟩ hv
+      have ha := hslice (lowerIdx' c n) A (by omega) hA
+      have hb' := hslice (lowerIdx' c n + 1) B hlo hB
+      have h1w : 0 ≤ 1 - (c - (lowerIdx' c n : Rat)) := by linarith [hw.2]
+      constructor
+      · have : L = (1 - (c - (lowerIdx' c n : Rat))) * L + (c - (lowerIdx' c n : Rat)) * L := by ring
+        rw [this]
+        exact add_le_add (mul_le_mul_of_nonneg_left ha.1 h1w) (mul_le_mul_of_nonneg_left hb'.1 hw.1)
+      · have : U = (1 - (c - (lowerIdx' c n : Rat))) * U + (c - (lowerIdx' c n : Rat)) * U := by ring
+        rw [this]
+        exact add_le_add (mul_le_mul_of_nonneg_left ha.2 h1w) (mul_le_mul_of_nonneg_left hb'.2 hw.1)
+
+#print axioms interpExt_bounds
 end Lcm
